@@ -4,11 +4,14 @@ package validation
 
 import (
 	"fmt"
+	"io"
+	"os"
 	"reflect"
 	"strings"
 
 	pa "github.com/benoitkugler/webrender/css/parser"
 	pr "github.com/benoitkugler/webrender/css/properties"
+	"github.com/benoitkugler/webrender/logger"
 )
 
 // Contracts for the deductive verifier in /verif (build tag verif: not compiled into
@@ -386,3 +389,56 @@ func vShorthandsVsLonghands() (int, []string) {
 //@   unclaimed callee-nopanic@* "the single-property validators called here (fontStyle, fontWeight, fontSize, ...) and reverse are not under contract: their own panic-freedom is not decided"
 //@   modifies anything
 //@   requires forall(j, 0, len(tokens), tokens[j] != nil)
+
+// ---------------------------------------------------------------------------
+// bounded stand-in (C07, C01): the ~200 property validators and the shorthand expanders are not under
+// contract one by one. vDeclarationsNoPanic feeds PreprocessDeclarations every declaration
+// `<property>: <value>` for EVERY property and shorthand name the package knows and every value of one to
+// three tokens over 16 token shapes (keywords, numbers with and without units, a percentage, `/`, `,`, a
+// string, a url, a function, a hash, an ident): about 1.4 million declarations. A declaration may be
+// dropped; none may panic.
+func vDeclarationsNoPanic() (int, []string) {
+	logger.WarningLogger.SetOutput(io.Discard) // a dropped declaration is reported there: not what is checked
+	defer logger.WarningLogger.SetOutput(os.Stdout)
+	vocab := []string{"auto", "none", "normal", "0", "1", "10px", "50%", "/", ",", "red", "\"s\"", "url(a)", "span", "2fr", "f(1)", "#a1"}
+	var names []string
+	for name := range pr.PropsFromNames {
+		names = append(names, name)
+	}
+	for sh := pr.Shortand(1); int(sh) < len(expanders); sh++ {
+		names = append(names, sh.String())
+	}
+	n := 0
+	var fails []string
+	try := func(name, value string) {
+		n++
+		defer func() {
+			if r := recover(); r != nil && len(fails) < 8 {
+				fails = append(fails, fmt.Sprintf("%s: %s panics: %v", name, value, r))
+			}
+		}()
+		vDeclared(name + ": " + value)
+	}
+	for _, name := range names {
+		failed := len(fails)
+		for _, a := range vocab {
+			try(name, a)
+			for _, b := range vocab {
+				try(name, a+" "+b)
+				if len(fails) > failed {
+					break
+				}
+				for _, c := range vocab {
+					try(name, a+" "+b+" "+c)
+				}
+			}
+			if len(fails) > failed {
+				break // one report per property
+			}
+		}
+	}
+	return n, fails
+}
+
+//@ bounded vDeclarationsNoPanic every property and shorthand name x every value of 1 to 3 tokens over 16 token shapes through PreprocessDeclarations: no panic
+//@   props C07 C01
